@@ -56,7 +56,8 @@ func candidates(rt *rapid.T, v *varInfo) []cand {
 		var cs []cand
 		in := func(x int64) bool { return x >= lo && x <= hi }
 		lit := func(x int64) string { return strconv.FormatInt(x, 10) }
-		valid := map[int64]bool{lo: true, hi: true, lo/2 + hi/2: true}
+		x0 := int64(uint64(lo) + (uint64(hi)-uint64(lo))/2) // midpoint, always inside [lo, hi]
+		valid := map[int64]bool{lo: true, hi: true, x0: true}
 		if lo < hi {
 			valid[lo+1], valid[hi-1] = true, true
 		}
@@ -76,7 +77,6 @@ func candidates(rt *rapid.T, v *varInfo) []cand {
 			}
 			cs = append(cs, ok(lit(x), class, nInt(x)))
 		}
-		x0 := lo/2 + hi/2
 		cs = append(cs, either(sqlStr(lit(x0)), "lenient", nInt(x0)))
 		if x0 > -(1<<52) && x0 < 1<<52 { // exactly representable whatever numeric type the literal gets
 			cs = append(cs, either(lit(x0)+".0", "lenient", nInt(x0)))
@@ -120,7 +120,8 @@ func candidates(rt *rapid.T, v *varInfo) []cand {
 		lo, hi := v.ulo, v.uhi
 		var cs []cand
 		lit := func(x uint64) string { return strconv.FormatUint(x, 10) }
-		valid := map[uint64]bool{lo: true, hi: true, lo/2 + hi/2: true}
+		x0 := lo + (hi-lo)/2 // midpoint, always inside [lo, hi]
+		valid := map[uint64]bool{lo: true, hi: true, x0: true}
 		if lo < hi {
 			valid[lo+1], valid[hi-1] = true, true
 		}
@@ -138,7 +139,6 @@ func candidates(rt *rapid.T, v *varInfo) []cand {
 			}
 			cs = append(cs, ok(lit(x), class, nUint(x)))
 		}
-		x0 := lo/2 + hi/2
 		cs = append(cs, either(sqlStr(lit(x0)), "lenient", nUint(x0)))
 		if x0 < 1<<52 {
 			cs = append(cs, either(lit(x0)+".0", "lenient", nUint(x0)))
